@@ -558,7 +558,7 @@ func (w *world) step(ev string) string {
 		pcls, pdet := w.predict(ev)
 		if pcls != "" && dlConfirmed[pcls] >= deadlockConfirmations && dlRefuted[pcls] == 0 {
 			w.deadlock, w.deadlockDetail = pcls, pdet+" (not executed: the same precondition was executed and proven to self-deadlock "+strconv.Itoa(deadlockConfirmations)+" times earlier in this run)"
-			w.poisoned, w.stuck = true, true
+			w.poisoned = true // nothing was executed, so nothing is stuck: the world is cleaned up as usual
 			dlSkipped[pcls]++
 			return "self-deadlock"
 		}
